@@ -283,6 +283,11 @@ func checkerFailure(verifDir, prop, tier string, seed int, start time.Time, reas
 // listed in `only` under rule id `as` of this property (key prefixed with the original rule id).  Used where a rule
 // decided for one property is a necessary condition of another one too (e.g. the transport relays for "no stuck notes").
 func (c *Ctx) importRules(from func(*Ctx), only []string, as string) {
+	c.importRulesWhere(from, only, as, nil)
+}
+
+// importRulesWhere: as importRules, restricted to the obligations whose key keep accepts.
+func (c *Ctx) importRulesWhere(from func(*Ctx), only []string, as string, keep func(key string) bool) {
 	sub := NewCtx(c.P, c.Property, c.Tier)
 	from(sub)
 	want := map[string]bool{}
@@ -295,6 +300,9 @@ func (c *Ctx) importRules(from func(*Ctx), only []string, as string) {
 			continue
 		}
 		if o.Rule == "count" || strings.HasPrefix(o.Key, "instance-count") {
+			continue
+		}
+		if keep != nil && !keep(o.Key) {
 			continue
 		}
 		o.Key = o.Rule + ":" + o.Key
